@@ -458,7 +458,7 @@ def _apply_cof(n, cof):
     return n
 
 
-def v_add(x, y):
+def _s_add(x, y):
     if not x.n:
         return y
     if not y.n:
@@ -468,12 +468,10 @@ def v_add(x, y):
     return _norm(Value(n, di, dm, df))
 
 
-def v_neg(x):
+def _s_neg(x):
     return Value({m: -c for m, c in x.n.items()}, x.di, x.dm, x.df)
 
 
-def v_sub(x, y):
-    return v_add(x, v_neg(y))
 
 
 SMALL = 6
@@ -524,7 +522,7 @@ def _norm(v):
     return v
 
 
-def v_mul(x, y):
+def _s_mul(x, y):
     C = CTX
     if not x.n or not y.n:
         return Value({})
@@ -611,7 +609,7 @@ def _inv_monomial(c, its):
     return v_mul(num, res)
 
 
-def v_inv(x):
+def _s_inv(x):
     C = CTX
     if not x.n:
         raise ZeroDivisionError("division by an expression that is identically zero")
@@ -633,8 +631,6 @@ def v_inv(x):
     return v_mul(res, inv)
 
 
-def v_div(x, y):
-    return v_mul(x, v_inv(y))
 
 
 def _factor_int(n):
@@ -734,7 +730,7 @@ def v_pow_int(x, k):
     return res
 
 
-def v_pow(x, e):
+def _s_pow(x, e):
     """x**e, e a Fraction; for non-integer e the base must be positive (side condition)."""
     C = CTX
     e = Fraction(e)
@@ -783,7 +779,7 @@ def v_pow(x, e):
     return v_div(res, den)
 
 
-def v_eq(x, y):
+def _s_eq(x, y):
     if not x.n or not y.n:
         return (not x.n) and (not y.n)
     di, dm, df, cx, cy = _den_lcm(x, y)
@@ -809,7 +805,7 @@ def _exparg(self, s):
 Ctx.exparg = _exparg
 
 
-def v_exp(u):
+def _s_exp(u):
     """exp(u): find-or-create the atom by decided equality of arguments"""
     C = CTX
     if not u.n:
@@ -825,7 +821,7 @@ def v_exp(u):
     return Value({C.mono([(s, QU)]): 1})
 
 
-def v_log(u):
+def _s_log(u):
     C = CTX
     if u.is_const() and u.as_fraction() == 1:
         return Value({})
@@ -838,7 +834,7 @@ def v_log(u):
     return Value({C.mono([(s, QU)]): 1})
 
 
-def merge_exps(v):
+def _s_merge_exps(v):
     """rewrite every monomial so that it contains at most one exp atom to the first power"""
     C = CTX
     if not C.exps:
@@ -866,13 +862,13 @@ def merge_exps(v):
     return Value({m: c for m, c in n.items() if c}, v.di, v.dm, v.df)
 
 
-def v_equal(x, y):
+def _s_equal(x, y):
     """the equality decision used for obligations (merges exp atoms first)"""
     if CTX.exps:
         # exp atoms may sit in denominators only via dm (they are non-reducible): move them up
-        x = merge_exps(_exp_den_up(x))
-        y = merge_exps(_exp_den_up(y))
-    return v_eq(x, y)
+        x = _s_merge_exps(_exp_den_up(x))
+        y = _s_merge_exps(_exp_den_up(y))
+    return _s_eq(x, y)
 
 
 def _exp_den_up(v):
@@ -888,11 +884,202 @@ def _exp_den_up(v):
     return v_mul(Value(v.n, v.di, dm, v.df), mult)
 
 
+
+# --------------------------------------------------------------------------------------------
+# sums of fractions with incomparable denominators are kept unexpanded (VSum); this is only a
+# representation choice: every operation below is the field operation, and the equality decision
+# falls back to the common-denominator form whenever the term-wise comparison is not conclusive.
+
+
+class VSum:
+    __slots__ = ("terms",)
+
+    def __init__(self, terms):
+        self.terms = terms
+
+    def is_zero(self):
+        return collapse(self).is_zero()
+
+    def is_const(self):
+        return collapse(self).is_const()
+
+    def as_fraction(self):
+        return collapse(self).as_fraction()
+
+    def __repr__(self):
+        return "VSum(%s)" % fmt(self)
+
+
+def _sig(v):
+    return frozenset(v.df)
+
+
+def _terms(x):
+    if type(x) is Value:
+        return {_sig(x): x} if x.n else {}
+    return x.terms
+
+
+def _mk(terms):
+    terms = {s: t for s, t in terms.items() if t.n}
+    if not terms:
+        return Value({})
+    if len(terms) == 1:
+        return next(iter(terms.values()))
+    return VSum(terms)
+
+
+def _absorb(terms, s, t):
+    """add term t (signature s) to the dict, merging with a comparable signature if there is one"""
+    if not t.n:
+        return
+    if s in terms:
+        r = _s_add(terms[s], t)
+        if r.n:
+            terms[s] = r
+        else:
+            del terms[s]
+        return
+    for u in terms:
+        if s < u or u < s:
+            r = _s_add(terms.pop(u), t)
+            if r.n:
+                _absorb(terms, _sig(r), r)
+            return
+    terms[s] = t
+
+
+def collapse(x):
+    if type(x) is Value:
+        return x
+    acc = Value({})
+    for t in x.terms.values():
+        acc = _s_add(acc, t)
+    return acc
+
+
+def v_add(x, y):
+    if type(x) is Value and type(y) is Value:
+        if not x.n:
+            return y
+        if not y.n:
+            return x
+        kx, ky = x.df.keys(), y.df.keys()
+        if kx == ky or kx <= ky or ky <= kx:
+            return _s_add(x, y)
+        return VSum({_sig(x): x, _sig(y): y})
+    terms = dict(_terms(x))
+    for s, t in _terms(y).items():
+        _absorb(terms, s, t)
+    return _mk(terms)
+
+
+def v_neg(x):
+    if type(x) is Value:
+        return _s_neg(x)
+    return VSum({s: _s_neg(t) for s, t in x.terms.items()})
+
+
+def v_sub(x, y):
+    return v_add(x, v_neg(y))
+
+
+def v_mul(x, y):
+    if type(x) is Value and type(y) is Value:
+        return _s_mul(x, y)
+    terms = {}
+    for t1 in _terms(x).values():
+        for t2 in _terms(y).values():
+            r = _s_mul(t1, t2)
+            _absorb(terms, _sig(r), r)
+    return _mk(terms)
+
+
+def v_inv(x):
+    return _s_inv(collapse(x))
+
+
+def v_div(x, y):
+    return v_mul(x, v_inv(y))
+
+
+def v_pow(x, e):
+    e = Fraction(e)
+    if type(x) is VSum:
+        if e.denominator == 1 and 0 <= e <= 4:
+            return v_pow_int(x, int(e))
+        x = collapse(x)
+    return _s_pow(x, e)
+
+
+def v_exp(x):
+    return _s_exp(collapse(x))
+
+
+def v_log(x):
+    return _s_log(collapse(x))
+
+
+def v_eq(x, y):
+    return v_equal(x, y)
+
+
+def v_equal(x, y):
+    if type(x) is Value and type(y) is Value:
+        return _s_equal(x, y)
+    d = v_sub(x, y)
+    if type(d) is Value:
+        return _s_equal(d, Value({}))
+    # term-wise: each group of the difference must vanish
+    if all(_s_equal(t, Value({})) for t in d.terms.values()):
+        return True
+    return _s_equal(collapse(d), Value({}))
+
+
+def merge_exps(x):
+    if type(x) is Value:
+        return _s_merge_exps(x)
+    return _mk_from_list([_s_merge_exps(t) for t in x.terms.values()])
+
+
+def _mk_from_list(vals):
+    terms = {}
+    for v in vals:
+        _absorb(terms, _sig(v), v)
+    return _mk(terms)
+
+
+def map_terms(x, fn):
+    """apply a linear map on simple values term by term"""
+    if type(x) is Value:
+        return fn(x)
+    return _mk_from_list([fn(t) for t in x.terms.values()])
+
+
+def evalv(v, env, F):
+    if type(v) is Value:
+        return _s_evalv(v, env, F)
+    tot = None
+    for t in v.terms.values():
+        r = _s_evalv(t, env, F)
+        tot = r if tot is None else tot + r
+    return tot
+
+
+def fmt(v, limit=12):
+    if type(v) is Value:
+        return _s_fmt(v, limit)
+    return " + ".join("{%s}" % _s_fmt(t, max(2, limit // len(v.terms))) for t in v.terms.values())
+
+
+def simple_parts(v):
+    return [v] if type(v) is Value else list(v.terms.values())
+
 # --------------------------------------------------------------------------------------------
 # numeric evaluation of canonical values (for counterexample search / cross checks)
 
 
-def evalv(v, env, F):
+def _s_evalv(v, env, F):
     """evaluate Value at env {sym -> number} in field F (module-like: sqrt, exp, log, num)"""
     C = CTX
     cache = {}
@@ -960,7 +1147,7 @@ def fmt_mono(m):
     return "*".join(parts) or "1"
 
 
-def fmt(v, limit=12):
+def _s_fmt(v, limit=12):
     C = CTX
     terms = []
     for i, (m, c) in enumerate(sorted(v.n.items(), key=lambda t: str(t[0]))):
